@@ -78,8 +78,15 @@ class UserRuntimeError(RuntimeError):
     pass
 
 
+class EmptyErrors(Exception):
+    """a collection-like error that is currently empty: a falsy exception instance"""
+
+    def __len__(self):
+        return 0
+
+
 EXCEPTIONS = [Exception, KeyError, OSError, UserError, ValueError, StopIteration, UserBase, SystemExit, GeneratorExit,
-              KeyboardInterrupt, NotImplementedError, UserRuntimeError]
+              KeyboardInterrupt, NotImplementedError, UserRuntimeError, EmptyErrors]
 
 
 def BOUNDS(tier):
@@ -174,7 +181,8 @@ def accept_scenario(ctx, flavour, how, via=None, bystanders=None):
     body, kind, obj = _outcome(ctx)
     w = rt.World()
     picked, beats = _bystanders(ctx, w, bystanders)
-    failing = rt.make_payload(flavour, body)
+    failing = rt.make_payload(flavour, body, at_call=(how in ("queued", "outside") and kind[0] == "raise"
+                                                      and ctx.flag("fails_when_called")))
     F = rt.FLAVOURS[flavour]
     svc = None
 
